@@ -28,7 +28,7 @@ func TestMain(m *testing.M) { os.Exit(evid.Main(m)) }
 var ev = evid.For(prop)
 
 func init() {
-	ev.SetRule("cases = (a) request-pipeline cases (generated handler sets, requests, behaviour scripts with reply/meta/timeout/event/panic actions and values incl. unmarshalable ones) and (b) service-level cases (TokenEvent, TokenEventWithID, TokenReset, Reset, ResetAll and resource events from With callbacks with resource names, event names and connection ids drawn from the full legal character set); every message on the connection is validated against the RES service protocol by an independent validator, responses additionally against the predicted meta/pre-responses/unmarshalable outcome; a case is non-trivial when it published a message whose payload has an escaped string, nested data value or meta, or involved an unmarshalable value; distinct = hash of the case")
+	ev.SetRule("cases = (a) request-pipeline cases (generated handler sets, requests, behaviour scripts with reply/meta/timeout/event/panic actions and values incl. unmarshalable ones) and (b) service-level cases (TokenEvent, TokenEventWithID, TokenReset, Reset, ResetAll and resource events from With callbacks with resource names, event names and connection ids drawn from the full legal character set); every message on the connection is validated against the RES service protocol by an independent validator, responses additionally against the predicted meta/pre-responses/unmarshalable outcome; a case is non-trivial when it published a message whose payload has an escaped string, nested data value or meta, or involved an unmarshalable value; distinct = hash of the case Also (c) concurrent batches whose scripts are prefixed with 0-4 extra Timeout calls (non-trivial when >=4 pre-responses were published or a message is non-trivial as above) and (d) query-request cases: 1-3 query events with 1-6 query requests each, answered by default/custom InvalidQuery, NotFound, Error, events, model/collection values, panics, nothing, or sent with malformed/query-less payloads (non-trivial when a default InvalidQuery follows an earlier query request of the same event).")
 	ev.Assume("request payloads carry protocol-conformant connection ids where an auth handler emits a token event on the request's connection")
 }
 
